@@ -3,6 +3,9 @@ import Autd3.Model.Obs
 import Autd3.Lemmas.RtExample
 import Autd3.Lemmas.RtNew
 import Autd3.Lemmas.RtOps6
+import Autd3.Lemmas.RtFoci8
+import Autd3.Lemmas.RtGstm10
+import Autd3.Lemmas.RtMulti
 /-!
 # C01 — what is sent is what the device holds
 
@@ -280,55 +283,73 @@ theorem swapGainStm_roundtrip (s : State) (t : Tx) (hWF : WF s) (ht : TxOK t) (h
 
 theorem swapGain_roundtrip (s : State) (t : Tx) (hWF : WF s) (ht : TxOK t) (hf : Fresh s t)
     (seg value : Nat) (hseg : seg ≤ 1)
-    (g0 : sel s.stmMode seg = Cpu.STM_MODE_GAIN ∧ sel s.stmCycle seg = 1) :
+    (g0 : sel s.stmMode seg = Cpu.STM_MODE_GAIN ∧ sel s.stmCycle seg = 1)
+    (g2 : validateSilencerSettings s (sel s.stmDiv seg) (sel s.modDiv s.modSegment) = false) :
     ∃ t' s', Sends (.swapGain seg Drv.TRANSITION_MODE_IMMEDIATE value) s t t' s' ∧ WF s' ∧ TxOK t' ∧ Fresh s' t' ∧
       Obs.reqStmSeg s' = .ok seg ∧ Obs.stmTransition s' = .ok .syncIdx ∧ s'.stmSegment = seg ∧
       SwapSet s.stmSwap s'.stmSwap s.dcSysTime (Obs.stmRep s seg) (Obs.stmDiv s seg) (Obs.stmCycle s seg) seg .syncIdx ∧
       s'.stmMem0 = s.stmMem0 ∧ s'.stmMem1 = s.stmMem1 ∧
       (∀ g, g ≤ 1 → Obs.stmDiv s' g = Obs.stmDiv s g ∧ Obs.stmCycle s' g = Obs.stmCycle s g ∧
         Obs.stmRep s' g = Obs.stmRep s g ∧ Obs.isStmGainMode s' g = Obs.isStmGainMode s g) :=
-  swapGain_roundtrip' s t hWF ht hf seg value hseg g0
+  swapGain_roundtrip' s t hWF ht hf seg value hseg g0 g2
 
 /-! ### Gain -/
 
 /-- Gain: `drives_at(seg, 0)` = the user's drives (phase + stored phase correction, intensity kept),
-cycle 1, gain mode, division/loop 0xFFFF, the other segment's memory and registers untouched; the
-request register is written (segment current at once: loop count 0xFFFF) iff the datagram carries a
-transition, otherwise the request/transition registers and the swap chain are untouched -/
+cycle 1, gain mode, division/loop 0xFFFF, the other segment's memory and registers untouched; the CPU
+records the segment as a gain segment (`GainCpu`: `stm_mode[seg] = GAIN`, other segment's copy
+unchanged); the request register is written (segment current at once: loop count 0xFFFF) iff the
+datagram carries a transition, otherwise the request/transition registers and the swap chain are
+untouched -/
 theorem gain_roundtrip (s : State) (t : Tx) (hWF : WF s) (ht : TxOK t) (hf : Fresh s t)
     (seg : Nat) (hseg : seg ≤ 1) (tr : Tr)
     (htr : tr = none ∨ ∃ v, tr = some (Drv.TRANSITION_MODE_IMMEDIATE, v))
     (drives : Array Nat) (hdr : ∀ i, rd drives i < 65536) :
     ∃ t' s', Sends (.gain seg tr drives) s t t' s' ∧ WF s' ∧ TxOK t' ∧ Fresh s' t' ∧
-      GainHeld s s' seg drives ∧
+      GainHeld s s' seg drives ∧ GainCpu s s' seg ∧
       (tr = none → s'.stmSwap = s.stmSwap ∧ Obs.reqStmSeg s' = Obs.reqStmSeg s ∧
-        Obs.stmTransition s' = Obs.stmTransition s ∧ s'.stmSegment = s.stmSegment ∧ s'.stmMode = s.stmMode) ∧
+        Obs.stmTransition s' = Obs.stmTransition s ∧ s'.stmSegment = s.stmSegment) ∧
       (tr.isSome = true → Obs.reqStmSeg s' = .ok seg ∧ Obs.stmTransition s' = .ok .syncIdx ∧
         Obs.currentStmSeg s' = seg ∧ s'.stmSegment = seg ∧
-        SwapSet s.stmSwap s'.stmSwap s.dcSysTime 0xFFFF 0xFFFF 1 seg .syncIdx ∧ s'.stmMode = s.stmMode) := by
+        SwapSet s.stmSwap s'.stmSwap s.dcSysTime 0xFFFF 0xFFFF 1 seg .syncIdx) := by
   rcases htr with h | ⟨v, h⟩
   · subst h
-    obtain ⟨t', s', h1, h2, h3, h4, h5, h6⟩ := gain_roundtrip_noupd s t hWF ht hf seg hseg drives hdr
-    exact ⟨t', s', h1, h2, h3, h4, h5, fun _ => h6, fun h => by simp at h⟩
+    obtain ⟨t', s', h1, h2, h3, h4, h5, a1, a2, a3, a4, hc⟩ := gain_roundtrip_noupd s t hWF ht hf seg hseg drives hdr
+    exact ⟨t', s', h1, h2, h3, h4, h5, GainCpu_of hseg hc, fun _ => ⟨a1, a2, a3, a4⟩, fun h => by simp at h⟩
   · subst h
-    obtain ⟨t', s', h1, h2, h3, h4, h5, h6⟩ := gain_roundtrip_upd s t hWF ht hf seg v hseg drives hdr
-    exact ⟨t', s', h1, h2, h3, h4, h5, fun h => by simp at h, fun _ => h6⟩
+    obtain ⟨t', s', h1, h2, h3, h4, h5, a1, a2, a3, a4, a5, hc⟩ := gain_roundtrip_upd s t hWF ht hf seg v hseg drives hdr
+    exact ⟨t', s', h1, h2, h3, h4, h5, GainCpu_of hseg hc, fun h => by simp at h, fun _ => ⟨a1, a2, a3, a4, a5⟩⟩
 
-/-- SUSPECTED DEFECT (not one of F1–F17), witnessed on the model: `write_gain` never sets the CPU's
-per-segment mode copy `stm_mode[segment]` (see `gain_roundtrip`: `s'.stmMode = s.stmMode`, while the
-FPGA register says gain mode), and `change_gain_segment` tests that stale copy.  So after a FociSTM in
-a segment, a Gain written to the same segment (without transition) reads back correctly, but
-SwapSegment::Gain to it is refused with `ERR_INVALID_SEGMENT_TRANSITION`, state unchanged. -/
-theorem swapGain_refused_on_stale_mode_copy (s : State) (d : Array Nat) (seg : Nat) (hseg : seg ≤ 1)
-    (h0 : u8at d 0 = Cpu.TAG_GAIN_CHANGE_SEGMENT) (h1 : u8at d 1 = seg)
-    (hm : sel s.stmMode seg ≠ Cpu.STM_MODE_GAIN) :
-    handlePayload s d = .ok (s, Cpu.ERR_INVALID_SEGMENT_TRANSITION) := by
-  unfold handlePayload; rw [h0]
-  show changeGainSegment _ _ = _
-  unfold changeGainSegment
-  simp only [FwLayout.GainUpdate_segment_off, h1]
-  rw [if_neg (by omega)]
-  simp [hm]
+/-- the two spelled-out facts about the CPU copy after a Gain -/
+theorem gain_sets_cpu_mode {s s' : State} {seg : Nat} (h : GainCpu s s' seg) :
+    sel s'.stmMode seg = Cpu.STM_MODE_GAIN ∧ sel s'.stmMode (1 - seg) = sel s.stmMode (1 - seg) := ⟨h.mode, h.modeOther⟩
+
+/-- **Gain then SwapSegment::Gain is accepted after ANY history** (repair of the stale-`stm_mode`
+defect): from every well-formed state, a Gain to segment `seg` (with or without transition) followed
+by SwapSegment::Gain(`seg`, Immediate) is accepted — both sends acknowledged without error, request
+register = `seg` — provided the silencer guard accepts the gain's division 0xFFFF: in strict mode the
+completion steps are ≤ 0xFFFF and the intensity steps ≤ the current modulation division -/
+theorem gain_then_swapGain_accepted (s : State) (t : Tx) (hWF : WF s) (ht : TxOK t) (hf : Fresh s t)
+    (seg value : Nat) (hseg : seg ≤ 1) (tr : Tr)
+    (htr : tr = none ∨ ∃ v, tr = some (Drv.TRANSITION_MODE_IMMEDIATE, v))
+    (drives : Array Nat) (hdr : ∀ i, rd drives i < 65536)
+    (hg : s.strict = true → s.minDivI ≤ 0xFFFF ∧ s.minDivP ≤ 0xFFFF ∧ s.minDivI ≤ sel s.modDiv s.modSegment) :
+    ∃ t1 s1 t2 s2, Sends (.gain seg tr drives) s t t1 s1 ∧
+      Sends (.swapGain seg Drv.TRANSITION_MODE_IMMEDIATE value) s1 t1 t2 s2 ∧ WF s2 ∧ TxOK t2 ∧ Fresh s2 t2 ∧
+      Obs.reqStmSeg s2 = .ok seg ∧ s2.stmSegment = seg ∧
+      (∀ g, Obs.stmMem s2 g = Obs.stmMem s1 g) ∧ GainHeld s s1 seg drives := by
+  obtain ⟨t1, s1, hS1, hW1, hT1, hF1, hH, hC, _, _⟩ := gain_roundtrip s t hWF ht hf seg hseg tr htr drives hdr
+  have g2 : validateSilencerSettings s1 (sel s1.stmDiv seg) (sel s1.modDiv s1.modSegment) = false := by
+    unfold validateSilencerSettings
+    rw [hC.div, hC.modDiv, hC.modSegment, hC.strict, hC.minDivI, hC.minDivP]
+    by_cases hs : s.strict = true
+    · obtain ⟨a, b, c⟩ := hg hs
+      simp only [hs, true_and, decide_eq_false_iff_not]; omega
+    · simp [hs]
+  obtain ⟨t2, s2, hS2, hW2, hT2, hF2, hreq, _, hseg2, _, hm0, hm1, _⟩ :=
+    swapGain_roundtrip s1 t1 hW1 hT1 hF1 seg value hseg ⟨hC.mode, hC.cycle⟩ g2
+  refine ⟨t1, s1, t2, s2, hS1, hS2, hW2, hT2, hF2, hreq, hseg2, ?_, hH⟩
+  intro g; unfold Obs.stmMem; rw [hm0, hm1]
 
 /-- the driver refuses any other transition mode for a Gain (nothing is packed) -/
 theorem gain_other_transition_rejected (seg m v : Nat) (drives : Array Nat) (n : Nat) (b : Array Nat)
@@ -415,6 +436,129 @@ theorem modHeld_spelled_out {s0 s' : State} {seg : Nat} {tr : Tr} {rep div : Nat
   · intro htr; subst htr; exact h.req
   · intro m v htr; subst htr; exact h.req
 
+
+/-! ### FociSTM -/
+
+/-- page-crossing lemma for FociSTM (4096-point pages, 16 pages): the copy part of `write_foci_stm` puts
+the `sn·n` 64-bit records of the frame at cursor `c …` of the target segment, also across a page
+boundary, and touches nothing else -/
+theorem foci_copy_with_page_split (s : State) (hW : WF s) (d : Array Nat) (off sn seg c n : Nat)
+    (hc : s.stmWrite = c) (hn : s.numFoci = n) (hw : sn * n < 65536) (hcw : c + sn * n ≤ 65536) (hc3 : c < 65536)
+    (hsr : reg s Cpu.ADDR_STM_MEM_WR_SEGMENT = seg) (hseg : seg ≤ 1) (hpage : reg s Cpu.ADDR_STM_MEM_WR_PAGE = c / 4096)
+    (hwp : sn * n ≤ 4096) :
+    ∃ s', fociDataPart s d off sn = .ok s' ∧ FociCopied s s' seg c (sn * n) d off :=
+  fociDataPart_ok s hW d off sn seg c n hc hn hw hcw hc3 hsr hseg hpage hwp
+
+/-- chunk arithmetic, driver side: `598/(8N)` patterns in the first frame, `618/(8N)` in every later one -/
+theorem foci_pack_first (n seg : Nat) (tr : Tr) (rep div ss : Nat) (records : Array Nat) (P nt : Nat) (b : Array Nat)
+    (hb : b.size = 622) (hn : 1 ≤ n ∧ n ≤ 8) (hP : records.size = P * n) (ht : 2 ≤ P * n ∧ P * n ≤ 65536) :
+    (Op.ofDg (.fociStm n seg tr rep div ss records)).pack nt b 0 =
+      .ok ({ dg := .fociStm n seg tr rep div ss records, sent := min P (598 / (8 * n)),
+             done := decide (P = min P (598 / (8 * n))) },
+        fociFirstPayload b records n (min P (598 / (8 * n)))
+          (fociFlagByte true (decide (P = min P (598 / (8 * n)))) tr.isSome) seg (trMode tr) div rep (trValue tr) ss,
+        24 + 8 * min P (598 / (8 * n)) * n) :=
+  pack_foci_first n seg tr rep div ss records P nt b hb hn hP ht
+
+/-- **FociSTM round trip**, N = 1..8 foci per pattern, `P` patterns, 2 ≤ P·N ≤ 65536 (`FociOK`), by
+induction over the frames: the stored 64-bit records equal the datagram's records (`stmRecord` is the
+word combination `foci_stm_drives` decodes), `num_foci`, sound speed, cycle = P, division, loop count,
+focus mode, the other segment's memory and registers untouched, and the request register / transition /
+swap chain written iff a transition is given (`FociHeld`).  `g1`, `g2` are the firmware's guards at BEGIN. -/
+theorem fociStm_roundtrip (s : State) (t : Tx) (hWF : WF s) (ht : TxOK t) (hf : Fresh s t)
+    (n seg : Nat) (tr : Tr) (rep div ss : Nat) (records : Array Nat) (P : Nat)
+    (H : FociOK s n seg tr rep div ss records P)
+    (g1 : validateTransitionMode s.stmSegment seg rep (trMode tr) = false)
+    (g2 : validateSilencerSettings s div (sel s.modDiv s.modSegment) = false) :
+    ∃ t' s', Sends (.fociStm n seg tr rep div ss records) s t t' s' ∧ WF s' ∧ TxOK t' ∧ Fresh s' t' ∧
+      FociHeld s s' seg tr rep div ss n records P :=
+  fociStm_roundtrip' s t hWF ht hf n seg tr rep div ss records P H g1 g2
+
+/-- what `FociHeld` says, spelled out -/
+theorem fociHeld_spelled_out {s0 s' : State} {seg : Nat} {tr : Tr} {rep div ss n : Nat} {records : Array Nat} {P : Nat}
+    (h : FociHeld s0 s' seg tr rep div ss n records P) :
+    (∀ k, k < P * n → stmRecord (Obs.stmMem s' seg) k = rd records k) ∧ Obs.stmCycle s' seg = P ∧
+    Obs.numFoci s' seg = n ∧ Obs.soundSpeed s' seg = ss ∧ Obs.stmDiv s' seg = div ∧ Obs.stmRep s' seg = rep ∧
+    Obs.isStmGainMode s' seg = false ∧ Obs.stmMem s' (1 - seg) = Obs.stmMem s0 (1 - seg) ∧
+    (tr = none → s'.stmSwap = s0.stmSwap ∧ Obs.reqStmSeg s' = Obs.reqStmSeg s0 ∧
+      Obs.stmTransition s' = Obs.stmTransition s0) ∧
+    (∀ m v, tr = some (m, v) → Obs.reqStmSeg s' = .ok seg ∧ Obs.stmTransition s' = .ok (tmodeOf m v) ∧
+      SwapSet s0.stmSwap s'.stmSwap s0.dcSysTime rep div P seg (tmodeOf m v)) := by
+  refine ⟨h.recs, h.hcycle, h.hnf, h.hss, h.hdiv, h.hrep, h.hmode, h.otherMem, ?_, ?_⟩
+  · intro htr; subst htr; exact h.req
+  · intro m v htr; subst htr; exact h.req
+
+/-- the record read by `stmRecord` is the 64-bit value `foci_stm_drives` decodes -/
+theorem stmRecord_def (m : Array Nat) (k : Nat) :
+    stmRecord m k = rd m (4 * k) + 65536 * rd m (4 * k + 1) + 4294967296 * rd m (4 * k + 2) +
+      281474976710656 * rd m (4 * k + 3) := rfl
+
+
+/-! ### GainSTM -/
+
+/-- the firmware's mode functions applied to the words the driver packed give the expected drive word of
+the mode: full word; (0xFF, phase); (0xFF, (phase >> 4)·0x11) — byte/nibble packing of modes 1 and 2 -/
+theorem gainStm_packing (mode hoff nt : Nat) (patterns : Array (Array Nat)) (c : Nat) (b : Array Nat) (send : Nat)
+    (d : Array Nat) (hm : mode ≤ 2) (hb : b.size = 622) (hfit : hoff + 2 * nt ≤ 622) (hs : 1 ≤ send ∧ send ≤ perFrame mode)
+    (hdx : ∀ x, hoff ≤ x → u8at d x = u8at (gstmData mode hoff nt patterns c b send) x)
+    (hw : ∀ idx i, rd (patAt patterns idx) i < 65536) :
+    ∀ j, j < (gstmFns mode send).length → ∀ i, i < nt →
+      nthF (gstmFns mode send) j (u16at d (hoff + 2 * i)) % 65536 = expDrive mode (rd (patAt patterns (c + j)) i) :=
+  gstm_hd mode hoff nt patterns c b send d hm hb hfit hs hdx hw
+
+/-- what the FPGA holds for a drive word in each GainSTM mode -/
+theorem expDrive_modes (w : Nat) :
+    expDrive 0 w = w ∧ expDrive 1 w = 0xFF00 + w % 256 ∧ expDrive 2 w = 0xFF00 + (w % 256 / 16) * 0x11 := ⟨rfl, rfl, rfl⟩
+
+/-- **GainSTM round trip**, the three modes, 2 ≤ size ≤ 1024 (`GOK`), by induction over the frames
+(1, 2 or 4 patterns per frame): for every pattern `idx` and transducer `i` the STM BRAM word
+`256·idx + i` of the segment is the expected drive word of the mode, cycle = size, gain mode (register and
+CPU copy), division, loop count, the other segment's memory and registers untouched, the request
+register / transition / swap chain written iff a transition is given (`GHeld`) -/
+theorem gainStm_roundtrip (s : State) (t : Tx) (hWF : WF s) (ht : TxOK t) (hf : Fresh s t)
+    (mode seg : Nat) (tr : Tr) (rep div : Nat) (patterns : Array (Array Nat)) (H : GOK s mode seg tr rep div patterns)
+    (g1 : validateTransitionMode s.stmSegment seg rep (trMode tr) = false)
+    (g2 : validateSilencerSettings s div (sel s.modDiv s.modSegment) = false) :
+    ∃ t' s', Sends (.gainStm mode seg tr rep div patterns) s t t' s' ∧ WF s' ∧ TxOK t' ∧ Fresh s' t' ∧
+      GHeld s s' seg tr rep div mode patterns :=
+  gainStm_roundtrip' s t hWF ht hf mode seg tr rep div patterns H g1 g2
+
+/-- what `GHeld` says, spelled out -/
+theorem gHeld_spelled_out {s0 s' : State} {seg : Nat} {tr : Tr} {rep div mode : Nat} {patterns : Array (Array Nat)}
+    (h : GHeld s0 s' seg tr rep div mode patterns) :
+    (∀ idx, idx < patterns.size → ∀ i, i < s0.numTr →
+      rd (Obs.stmMem s' seg) (256 * idx + i) = expDrive mode (rd (patAt patterns idx) i)) ∧
+    Obs.stmCycle s' seg = patterns.size ∧ Obs.isStmGainMode s' seg = true ∧ Obs.stmDiv s' seg = div ∧
+    Obs.stmRep s' seg = rep ∧ sel s'.stmMode seg = Cpu.STM_MODE_GAIN ∧ Obs.stmMem s' (1 - seg) = Obs.stmMem s0 (1 - seg) ∧
+    (tr = none → s'.stmSwap = s0.stmSwap ∧ Obs.reqStmSeg s' = Obs.reqStmSeg s0 ∧
+      Obs.stmTransition s' = Obs.stmTransition s0) ∧
+    (∀ m v, tr = some (m, v) → Obs.reqStmSeg s' = .ok seg ∧ Obs.stmTransition s' = .ok (tmodeOf m v) ∧
+      SwapSet s0.stmSwap s'.stmSwap s0.dcSysTime rep div patterns.size seg (tmodeOf m v)) := by
+  refine ⟨h.rows, h.hcycle, h.hmode, h.hdiv, h.hrep, h.cpuMode, h.otherMem, ?_, ?_⟩
+  · intro htr; subst htr; exact h.req
+  · intro m v htr; subst htr; exact h.req
+
+
+/-! ### 1..n devices -/
+
+/-- **device independence**: the controller's lockstep rounds (one frame per device per round, devices
+whose operation is done are skipped) give, for every device, exactly the result of running that device
+alone — device `i`'s final state is a function of its own operation, state and tx buffer only -/
+theorem device_independent (n : Nat) (devs : List Dev) : lockstep n devs = devs.mapM (devRun n) :=
+  lockstep_pointwise n devs
+
+/-- the per-device rounds are the send loop of the round-trip theorems: whenever `Sends dg s t t' s'` holds
+(with `fuel` frames), `n ≥ fuel - 1` rounds leave device `(Op.ofDg dg, s, t)` in `(done, s', t')`; together
+with `device_independent` every `*_roundtrip` theorem lifts to any number of devices -/
+theorem device_rounds_are_sendLoop (fuel : Nat) (o : Op) (s : State) (t t' : Tx) (s' : State)
+    (h : sendLoop fuel o s t = some (t', s')) (n : Nat) (hn : fuel ≤ n + 1) :
+    ∃ o', devRun n (o, s, t) = some (o', s', t') ∧ o'.done = true :=
+  devRun_of_sendLoop fuel o s t t' s' h n hn
+
+/-- a device that is re-sent the frame it has already processed ignores it -/
+theorem resent_frame_ignored (s : State) (t : Tx) (h : s.lastMsgId = t.msgId % 256) : ecatRecv s t.frame = .ok s :=
+  ecatRecv_idle s t h
+
 /-! ### non-vacuity: concrete inputs meeting the hypotheses -/
 
 /-- the theorems apply to the power-on state of a 249-transducer device and a fresh tx buffer
@@ -446,5 +590,36 @@ example : ∃ t' s', Sends (.gain 1 none (Array.replicate 249 0x80FF)) exState e
   obtain ⟨t', s', h, _, _, _, h5, _⟩ := gain_roundtrip exState exTx WF_exState TxOK_exTx Fresh_ex 1 (by decide) none
     (Or.inl rfl) (Array.replicate 249 0x80FF) (by intro i; unfold rd; by_cases h : i < 249 <;> simp [h])
   exact ⟨t', s', h, h5.cycle⟩
+
+/-- a 300-pattern FociSTM with 3 foci per pattern (900 records, 13 frames) to segment 1, GPIO transition -/
+example : ∃ t' s', Sends (.fociStm 3 1 (some (2, 1)) 5 512 340 (Array.replicate 900 12345)) exState exTx t' s' ∧
+    Obs.stmCycle s' 1 = 300 ∧ Obs.numFoci s' 1 = 3 := by
+  have H : FociOK exState 3 1 (some (2, 1)) 5 512 340 (Array.replicate 900 12345) 300 := by
+    refine ⟨by decide, by decide, by simp, by decide, ?_, by decide, by decide, by decide, ?_⟩
+    · intro i; unfold rd; by_cases h : i < 900 <;> simp [h]
+    · intro m v h
+      simp only [Option.some.injEq, Prod.mk.injEq] at h
+      obtain ⟨rfl, rfl⟩ := h
+      exact ⟨Or.inr (Or.inr (Or.inl ⟨rfl, by decide⟩)), by decide, by decide⟩
+  obtain ⟨t', s', h, _, _, _, h5⟩ := fociStm_roundtrip exState exTx WF_exState TxOK_exTx Fresh_ex 3 1 (some (2, 1)) 5
+    512 340 (Array.replicate 900 12345) 300 H (by decide) (by decide)
+  exact ⟨t', s', h, h5.hcycle, h5.hnf⟩
+
+/-- a 7-pattern GainSTM in PhaseHalf mode (2 frames: 4 + 3 patterns) to segment 0, no transition -/
+example : ∃ t' s', Sends (.gainStm 2 0 none 0xFFFF 4000 (Array.replicate 7 (Array.replicate 249 0x1234))) exState exTx t' s' ∧
+    Obs.stmCycle s' 0 = 7 := by
+  have H : GOK exState 2 0 none 0xFFFF 4000 (Array.replicate 7 (Array.replicate 249 0x1234)) := by
+    refine ⟨by decide, by decide, by simp, ?_, by decide, by decide, ?_⟩
+    · intro idx i
+      unfold patAt rd
+      by_cases h : idx < 7
+      · simp [h]; by_cases h2 : i < 249 <;> simp [h2]
+      · simp [h]; show (#[] : Array Nat)[i]?.getD 0 < 65536; simp
+    · intro m v h; simp at h
+  obtain ⟨t', s', h, _, _, _, h5⟩ := gainStm_roundtrip exState exTx WF_exState TxOK_exTx Fresh_ex 2 0 none 0xFFFF 4000
+    (Array.replicate 7 (Array.replicate 249 0x1234)) H (by decide) (by decide)
+  refine ⟨t', s', h, ?_⟩
+  have := h5.hcycle
+  simpa using this
 
 end Autd3.C01
